@@ -59,6 +59,9 @@ pub struct Violation {
 
 #[derive(Clone, Debug, Default)]
 pub struct Stats {
+    pub pinned_histories_cut_short_by_the_growth_guard: u64,
+    pub pinned_readers_opened: u64,
+    pub commits_with_a_pinned_reader: u64,
     pub op_results: BTreeMap<(String, String), u64>,
     pub ops: u64,
     pub commits: u64,
@@ -93,6 +96,9 @@ impl Stats {
         for (k, v) in &o.op_results {
             *self.op_results.entry(k.clone()).or_insert(0) += v;
         }
+        self.pinned_readers_opened += o.pinned_readers_opened;
+        self.pinned_histories_cut_short_by_the_growth_guard += o.pinned_histories_cut_short_by_the_growth_guard;
+        self.commits_with_a_pinned_reader += o.commits_with_a_pinned_reader;
         self.ops += o.ops;
         self.commits += o.commits;
         self.rollbacks += o.rollbacks;
@@ -806,8 +812,16 @@ pub fn run_history(h: &History, cfg: &ExecCfg, path: &Path) -> Outcome {
     crate::report::progress();
     let mut run = Run::new(cfg, h.pagesize);
     let r = util::catch(|| run_inner(h, &mut run, path));
+    crate::c03::forbid_grow(false);
     match r {
         Ok(()) => {}
+        Err(p) if p.msg.contains(crate::c03::GROW_MSG) => {
+            // a history with pinned readers whose pre-sized file was too small after all: a commit that
+            // extends the file while a reader is open on the same thread waits for itself (documented
+            // limitation of the crate) - the guard stops it before that; no verdict on this history
+            run.out.aborted = true;
+            run.out.stats.pinned_histories_cut_short_by_the_growth_guard += 1;
+        }
         Err(p) => {
             let phase = match run.cur_op {
                 Some(i) => h.txs[run.cur_tx].ops.get(i).map(|o| o.name()).unwrap_or("end-of-tx"),
@@ -1496,7 +1510,106 @@ fn exec_tx_inner(run: &mut Run, db: &DB, path: &Path, script: &TxScript, committ
     *committed_out = committed;
 }
 
+/// Histories with pinned readers (`History::pins`): read-only transactions stay open across write
+/// transactions on the same handle.  No reopen, pre-sized file (see `presize_for_pins`).
+fn run_inner_pinned(h: &History, run: &mut Run, path: &Path) {
+    let db = match open_db(path, h) {
+        Ok(db) => db,
+        Err(e) => {
+            run.viol(Class::Open, "open:err".into(), format!("open failed: {}", e));
+            run.out.aborted = true;
+            return;
+        }
+    };
+    let mut committed = MBucket::default();
+    run.last_file_len = std::fs::metadata(path).map(|m| m.len()).unwrap_or(0);
+    let mut readers: Vec<(usize, Tx, MBucket)> = Vec::new();
+    for (ti, script) in h.txs.iter().enumerate() {
+        for (a, b) in &h.pins {
+            if *a == ti {
+                match db.tx(false) {
+                    Ok(tx) => {
+                        run.out.stats.pinned_readers_opened += 1;
+                        readers.push((*b, tx, committed.clone()));
+                    }
+                    Err(e) => {
+                        run.viol(Class::UnexpectedErr, "pinned-reader:begin:err".into(), format!("read-only transaction before write transaction {}: {}", ti, e));
+                        run.out.aborted = true;
+                        return;
+                    }
+                }
+            }
+        }
+        let commits_before = run.out.stats.commits;
+        crate::c03::forbid_grow(!readers.is_empty());
+        exec_tx(run, &db, path, script, ti, &mut committed);
+        crate::c03::forbid_grow(false);
+        if run.out.aborted {
+            return;
+        }
+        if run.out.stats.commits > commits_before {
+            run.out.stats.commits_with_a_pinned_reader += readers.len().min(1) as u64;
+        }
+        if run.cfg.verify_after_commit {
+            for (_, tx, snap) in &readers {
+                run.out.stats.full_verifications += 1;
+                if let Some(d) = verify_tx_against(tx, snap, false) {
+                    run.viol(Class::PostCommit, format!("pinned-reader:{}", classify_diff(&d)), format!("a reader held open across write transaction {} no longer sees its snapshot: {}", ti, d));
+                    run.out.aborted = true;
+                    return;
+                }
+            }
+        }
+        readers.retain(|(b, _, _)| *b != ti);
+    }
+    drop(readers);
+    drop(db);
+    if run.cfg.verify_after_commit {
+        match open_db(path, h) {
+            Ok(db) => {
+                run.out.stats.reopens += 1;
+                let tx = db.tx(false).expect("read tx");
+                if let Some(d) = verify_tx_against(&tx, &committed, true) {
+                    run.viol(Class::Reopen, format!("reopen:{}", classify_diff(&d)), format!("final close + reopen: {}", d));
+                }
+            }
+            Err(e) => run.viol(Class::Reopen, "reopen:err".into(), format!("final reopen failed: {}", e)),
+        }
+    }
+}
+
+/// Initial page count for a history with pinned readers: an upper bound on every page the history can
+/// allocate when nothing is ever reused, so that no commit has to extend the file while a reader is open
+/// on the same thread.
+pub fn presize_for_pins(h: &History) -> usize {
+    fn weight(v: &serde_json::Value) -> u64 {
+        match v {
+            serde_json::Value::Object(m) => m.iter().map(|(k, x)| if k == "len" || k == "fill" { x.as_u64().unwrap_or(0) } else { weight(x) }).sum(),
+            serde_json::Value::Array(a) => {
+                if a.iter().all(|x| x.is_u64()) {
+                    a.len() as u64 // a literal byte string
+                } else {
+                    a.iter().map(weight).sum()
+                }
+            }
+            _ => 0,
+        }
+    }
+    let mut pages: u64 = 64;
+    for t in &h.txs {
+        pages += 16;
+        for op in &t.ops {
+            let w = weight(&serde_json::to_value(op).unwrap_or(serde_json::Value::Null));
+            pages += 2 * (8 + 2 * (w / h.pagesize + 1));
+        }
+    }
+    pages as usize
+}
+
 fn run_inner(h: &History, run: &mut Run, path: &Path) {
+    if !h.pins.is_empty() {
+        return run_inner_pinned(h, run, path);
+    }
     let mut db = match open_db(path, h) {
         Ok(db) => db,
         Err(e) => {
